@@ -52,7 +52,7 @@ for d, m in rows:
 first = sum(1 for d, m in rows if any("first run: not detected" in v or "first run printed" in v for v in m["checks_run_against_it"].values()))
 oos = sum(1 for d, m in rows if m.get("out_of_scope"))
 first = sum(1 for d, m in rows if not m.get("out_of_scope") and any(("first run" in v) or ("would have missed" in v) for v in m["checks_run_against_it"].values()))
-tab += ("\n%d seeded changes (ten rounds; several later ones repeat an idea of an earlier round). %d escaped the property's own check -- or were mis-reported by it -- on the first run "
+tab += ("\n%d seeded changes (eleven rounds; several later ones repeat an idea of an earlier round). %d escaped the property's own check -- or were mis-reported by it -- on the first run "
         "and are detected after the strengthening described below; %d are kept as documented non-detections because they do not break their property as stated; "
         "every other one is detected by the check of its property (seeded/REGRESSION.md).\n" % (len(rows), first, oos))
 open(dp, "w").write(ds[:b0] + "<!-- SEEDED-TABLE-BEGIN -->\n" + tab + ds[b1:])
